@@ -175,6 +175,8 @@ class Ctl:
         self.on_quiescent = None     # optional callable() -> bool (True: something was made runnable)
         self.lines = 0
         self.interesting = {}        # filename -> set of interesting line numbers (preemption points)
+        self.stalls = {}             # thread name -> [nth aiuti line, virtual seconds]: the thread is descheduled there
+        self._lines_of = {}
 
     # ---- logging
     def t_ms(self):
@@ -408,6 +410,15 @@ class Ctl:
             self.lines += 1
             if self.line_hook is not None:
                 self.line_hook(self.current, frame.f_code.co_filename, frame.f_lineno, frame)
+            if self.stalls:
+                cur = self.current
+                st = self.stalls.get(cur)
+                if st is not None:
+                    n = self._lines_of.get(cur, 0) + 1
+                    self._lines_of[cur] = n
+                    if n == st[0]:
+                        self.log('Stall', thr=cur, d=int(st[1] * self.ms))
+                        self.sleep(st[1])     # an arbitrarily long descheduling of this thread
             il = self.interesting.get(frame.f_code.co_filename)
             self.point('line', (frame.f_code.co_name, frame.f_lineno, il is None or frame.f_lineno in il))
         return self._ltrace
